@@ -23,6 +23,19 @@ Theorem C02_final_sort_perm : forall l : list diag, Permutation l (final l).
 Proof. exact (ssort_perm dg_pos pos_leb). Qed.
 Print Assumptions C02_final_sort_perm.
 
+(* the comparison matters: through one packed key (line shifted by k bits, or-ed with the column)
+   two different positions of one line collide for every k, and with k = 10 two lists that the
+   real comparison sorts alike - one diagnostic per position - come out in different orders *)
+Theorem C02_packed_key_collides : forall k, exists p q : posn, p <> q /\ packed_key k p = packed_key k q.
+Proof. exact packed_key_collides. Qed.
+Print Assumptions C02_packed_key_collides.
+
+Theorem C02_final_sort_packed_key_refuted :
+  exists (l l' : list diag), Permutation l l' /\ NoDup (map dg_pos l) /\
+    final l = final l' /\ final_packed 10 l <> final_packed 10 l'.
+Proof. exact final_packed_refuted. Qed.
+Print Assumptions C02_final_sort_packed_key_refuted.
+
 (* a site that ranges over a map directly, different entries reporting at
    different positions, is deterministic after the final sort *)
 Theorem C02_site_distinct_positions : forall (K V : Type) (emit : K -> V -> list diag) (m m' : list (K * V)),
